@@ -14,6 +14,7 @@ import (
 	"os"
 	"os/exec"
 	"path/filepath"
+	"regexp"
 	"sort"
 	"strconv"
 	"strings"
@@ -241,7 +242,7 @@ func runItem(prop, tier string, idx int, deadline time.Time, maxExecs int) *Item
 		r.WallMs = time.Since(start).Milliseconds()
 		return r
 	}
-	st := explore.Explore(it.Exec, explore.Options{Bound: it.Bound, Strategy: it.Strat, Deadline: deadline, MaxExecs: maxExecs, Cfg: it.Cfg})
+	st := explore.Explore(it.Exec, explore.Options{Bound: it.Bound, Strategy: it.Strat, Deadline: deadline, MaxExecs: maxExecs, Cfg: it.Cfg, CurFile: os.Getenv("MC_CUR")})
 	r.Execs, r.Steps, r.Points, r.ChoicePoints = int64(st.Execs), st.Steps, st.Points, st.ChoicePoints
 	r.ByDev = st.ByDev
 	r.Distinct = int64(len(st.Distinct))
@@ -357,13 +358,22 @@ func cmdCheck(args []string) {
 		}
 	}
 	var batches [][]int
-	for i := 0; i < len(order); i += bsz {
-		j := i + bsz
-		if j > len(order) {
-			j = len(order)
+	var plain []int
+	for _, i := range order {
+		if items[i].Race {
+			batches = append(batches, []int{i}) // one process per race item: ThreadSanitizer ends the process at the first report
+		} else {
+			plain = append(plain, i)
 		}
-		batches = append(batches, order[i:j])
 	}
+	for i := 0; i < len(plain); i += bsz {
+		j := i + bsz
+		if j > len(plain) {
+			j = len(plain)
+		}
+		batches = append(batches, plain[i:j])
+	}
+	raceBin := os.Getenv("MC_RACE_BIN")
 	self, _ := os.Executable()
 	results := make([]*ItemResult, len(items))
 	var mu sync.Mutex
@@ -382,9 +392,45 @@ func cmdCheck(args []string) {
 				for _, i := range b {
 					a = append(a, strconv.Itoa(i))
 				}
-				cmd := exec.Command(self, a...)
-				cmd.Env = append(os.Environ(), "GOMAXPROCS=2", "GOMEMLIMIT=3GiB")
+				bin := self
+				env := append(os.Environ(), "GOMAXPROCS=2", "GOMEMLIMIT=3GiB")
+				curFile := ""
+				if items[b[0]].Race {
+					if raceBin == "" {
+						mu.Lock()
+						harnessErr = append(harnessErr, "race item but MC_RACE_BIN is not set")
+						mu.Unlock()
+						continue
+					}
+					bin = raceBin
+					curFile = filepath.Join(os.TempDir(), fmt.Sprintf("mc-cur-%d-%d", os.Getpid(), b[0]))
+					env = append(env, "GORACE=halt_on_error=1 exitcode=66", "MC_CUR="+curFile)
+				}
+				cmd := exec.Command(bin, a...)
+				cmd.Env = env
 				out, err := cmd.Output()
+				if curFile != "" {
+					if ee, ok := err.(*exec.ExitError); ok && ee.ExitCode() == 66 {
+						// ThreadSanitizer reported a data race in this execution
+						cur, _ := os.ReadFile(curFile)
+						var choices []int
+						for _, f := range strings.Fields(strings.Trim(string(cur), "[]")) {
+							n, _ := strconv.Atoi(f)
+							choices = append(choices, n)
+						}
+						key, report := raceKey(string(ee.Stderr))
+						it := items[b[0]]
+						r := &ItemResult{Index: b[0], Name: it.Name, Bound: it.Bound, Execs: 1, Nontrivial: 1, Distinct: 1, Points: 1, Steps: 1, Capped: "stopped at the first data race report",
+							Samples: []string{it.Sample},
+							Found:   []FoundRec{{Item: b[0], Name: it.Name, Strategy: it.Strat, Choices: choices, Verdict: "RACE", Key: key, Detail: report, Events: it.Tags, Repro: 1}}}
+						mu.Lock()
+						results[b[0]] = r
+						mu.Unlock()
+						os.Remove(curFile)
+						continue
+					}
+					os.Remove(curFile)
+				}
 				mu.Lock()
 				dec := json.NewDecoder(strings.NewReader(string(out)))
 				n := 0
@@ -731,4 +777,30 @@ func chunkIndex(prop, tier, name string) int {
 		}
 	}
 	return -1
+}
+
+var reRaceFunc = regexp.MustCompile(`(?m)^(?:Read|Write|Previous read|Previous write) at .*\n\s+(\S+)\(\)`)
+
+// raceKey extracts the two accessing functions from a ThreadSanitizer report.
+func raceKey(stderr string) (string, string) {
+	i := strings.Index(stderr, "WARNING: DATA RACE")
+	if i < 0 {
+		return "RACE:unparsed", stderr
+	}
+	rep := stderr[i:]
+	if j := strings.Index(rep[1:], "=================="); j > 0 {
+		rep = rep[:j+1]
+	}
+	var fs []string
+	for _, m := range reRaceFunc.FindAllStringSubmatch(rep, -1) {
+		f := m[1]
+		f = strings.TrimPrefix(f, "github.com/vbauerster/mpb/v8/")
+		f = strings.TrimPrefix(f, "github.com/vbauerster/mpb/")
+		fs = append(fs, f)
+	}
+	sort.Strings(fs)
+	if len(rep) > 4000 {
+		rep = rep[:4000]
+	}
+	return "RACE:" + strings.Join(fs, "|"), rep
 }
